@@ -706,6 +706,50 @@ def check_multiplicity(run, ix):
         run.ok('R-M1', 'result is not the bare loop variable')
 
 
+def check_md_nan(run, ix):
+    """R-R6.  "Every value findroot returns satisfies |f(x)|^2 <= tol": the multidimensional driver measures the
+    residual with norm(., inf) = the largest magnitude.  Python's max() drops a nan unless it comes first, so
+    norm([0, nan]) was 0 and a point with a nan residual passed both the descent test and the verification.
+    Decided: the infinity-norm branch of ctx.norm returns a nan component before taking max; and MDNewton raises
+    when its step contains a nan (the damping loop -- exit on x1 == x0 or on a smaller norm -- cannot end then)."""
+    f = ix.func('mpmath/matrices/matrices.py', 'MatrixMethods.norm')
+    infb = [x for x in _walk_own(f.node) if isinstance(x, ast.If) and 'ctx.inf' in norm(x.test)]
+    ok = False
+    for b in infb:
+        loops = [l for l in b.body if isinstance(l, ast.For)]
+        for l in loops:
+            v = norm(l.target)
+            if any(isinstance(i, ast.If) and norm(i.test).replace(' ', '') == '%s!=%s' % (v, v) and
+                   any(isinstance(r, ast.Return) for r in i.body) for i in l.body):
+                mx = [r for r in b.body if isinstance(r, ast.Return) and 'max(' in norm(r.value)]
+                if mx and mx[0].lineno > l.lineno:
+                    ok = True
+    if ok:
+        run.ok('R-R6', 'norm(x, inf) returns a nan component before taking the maximum')
+    else:
+        rets = [r for b in infb for r in b.body if isinstance(r, ast.Return)]
+        run.fail(Finding('R-R6', f.file, f.qualname, norm(rets[0]) if rets else 'def norm',
+                         'the infinity norm is the plain max() of the magnitudes, which drops a nan unless it comes '
+                         'first: norm([0, nan]) is 0, and findroot accepts a point whose residual is [0, nan]',
+                         line=rets[0].lineno if rets else f.lineno))
+    g = ix.func(OPT, 'MDNewton.__iter__')
+    solve = [a for a in _walk_own(g.node) if isinstance(a, ast.Assign) and 'lu_solve' in norm(a.value)]
+    if not solve:
+        raise AnalysisError('MDNewton: the linear solve was not found')
+    s_ = norm(solve[0].targets[0])
+    inner = [w for w in _walk_own(g.node) if isinstance(w, ast.While) and isinstance(w.test, ast.Constant)]
+    guards = [i for i in _walk_own(g.node) if isinstance(i, ast.If) and any(isinstance(r, ast.Raise) for r in i.body)
+              and ' != ' in norm(i.test) and s_ in norm(i.test) and i.lineno > solve[0].lineno and
+              (not inner or i.lineno < inner[0].lineno)]
+    if guards:
+        run.ok('R-R6', 'MDNewton raises when the Newton step is not a number, before the damping loop')
+    else:
+        run.fail(Finding('R-R6', g.file, g.qualname, norm(solve[0]), 'a nan in f or its Jacobian makes the step nan; the '
+                         'damping loop ends only when the halved step no longer changes x or the norm decreases, neither '
+                         'of which can happen: findroot(lambda x, y: [x-1, nan], (3, 5)) does not return',
+                         line=solve[0].lineno))
+
+
 def run(run, ix, tier):
     run.explanation = (
         'Two structural guarantees behind "findroot returns genuine roots": (1) the verification gate - '
@@ -741,6 +785,8 @@ def run(run, ix, tier):
     run.rule('R-P4', floor=1, desc='polyroots error floor scales with the largest root')
     check_error_floor(run, ix)
     check_multiplicity(run, ix)
+    run.rule('R-R6', floor=2, desc='multidimensional Newton: a nan residual is seen by the norm, a nan step ends the iteration')
+    check_md_nan(run, ix)
     # built-in positive example: a negative scaling factor must break the invariant
     src = ("def getm(fz, fb):\n    return (1 - fz/fb) or 0.5\n")
     fd = ast.parse(src).body[0]
